@@ -269,11 +269,18 @@ class C16:
             if g[0] == "comp" and g[1] in ("gen", "list") and len(g[3]) == 1 and g[3][0][1] == RNG and not g[3][0][2]:
                 ax = ("elem", g[3][0][0])
                 elt = g[2]
+                tab = None
                 if elt[0] == "ite" and elt[1][0] == "cmp" and elt[1][1] == "in" and elt[1][2] == ax and elt[3] == SL and elt[2] == ("sub", elt[1][3], ax):
                     tab = elt[1][3]
+                elif elt[0] == "call" and elt[1][0] == "attr" and elt[1][2] == "get" and elt[2] == (ax, SL) and not elt[3]:
+                    tab = elt[1][1]
+                if tab is not None:
                     init_ok = True
                     if tab[0] == "comp" and tab[1] == "dict" and len(tab[3]) == 1 and tab[3][0][1] == items and not tab[3][0][2] and tab[2][0] == "kv":
                         ok_idx = entry_ok(tab[3][0][0], tab[2][1], tab[2][2])
+                    else:
+                        ctx.undec("R16.3", site, f"the table of queried axes is built in a form the rule does not read: {show(tab)[:70]}")
+                        return
                 index_term = it if it[0] == "call" else ("call", ("builtin", "tuple"), (it,), ()) if g[1] == "list" else it
         else:
             ctx.undec("R16.3", site, "loop over the query items not found")
